@@ -183,7 +183,9 @@ def judge_matchpy(recs, wd, out, label, judged=None):
                     stats["refusal_examples"].append({k: rec.get(k) for k in
                                                       ("s", "p", "match", "anyw", "rep", "rep2")})
             continue
-        sig = {"part": "matchpy", "clause": v["op"] + "_" + v["v"], "feat": v["feat"]}
+        # both replace_all drives (marker / wrap callback) are the same operation
+        op = "replace" if v["op"] == "replace_wrap" else v["op"]
+        sig = {"part": "matchpy", "clause": op + "_" + v["v"], "feat": v["feat"]}
         out.fail(sig, {"part": "matchpy",
                        "case": {k: rec[k] for k in ("kind", "s", "p", "c")},
                        "recorded": {k: rec.get(k) for k in ("rt", "match", "anyw", "rep", "rep2")},
@@ -221,7 +223,8 @@ def drive_all(cases, out):
 def finish_part(recs, out):
     for r in recs:
         out.note_case([r["s"], r["p"]], nontrivial=r["s"]["t"] not in ("Var", "Const"))
-    mp = [r for r in recs if r["kind"] == "mp" and r["rep"]["calls"] and not r["rep"]["exc"]]
+    mp = [r for r in recs if r["kind"] == "mp" and r["c"] == "id" and r["rep"]["calls"]
+          and not r["rep"]["exc"] and r["match"]["subs"]]
     if mp:
         r = mp[len(mp) // 2]
         out.samples.append({"subject": r["s"], "wildcard_pattern": r["p"],
